@@ -355,6 +355,7 @@ func init() {
 		c.Rule = "complete enumeration of (server mode) x (method x {valid, params removed, params := each JSON type, each params key removed / := each JSON type} + unknown methods + id forms + handler outcomes + unparsable bodies + wrong path/verb/content-type); a case is distinct by (mode, label); non-trivial = the server emitted at least one frame or an HTTP refusal that the oracle judged"
 		c.Assume = append(c.Assume, "MCP schema hand-written from the 2025-03-26 specification text (/verif/spec), validated with python jsonschema Draft 2020-12", "memnet replaces net/http", "one request per fresh, initialised server (sequences are covered by C06/C14)")
 		c.Enumerate("c03/conformance")
+		c.Enumerate("c03/notifications")
 	})
 }
 
@@ -507,4 +508,175 @@ func errorWithoutID(f string) bool {
 	_, isErr := m["error"]
 	id, has := m["id"]
 	return isErr && (!has || string(id) == "null")
+}
+
+// ---- notifications the server writes ------------------------------------------------------------
+//
+// "Every message a server writes ... a notification has a method and no id": notifications pushed
+// to a session (Streamable GET stream, legacy SSE stream) and notifications a tool handler emits
+// while it runs (POST-SSE answer stream), with parameter strings that are hostile to naive
+// frame writers. Each frame is judged by the schema oracle and its parameters must be JSON-equal to
+// what was handed to the library.
+
+var c03NoteStrings = []struct{ Name, S string }{
+	{"plain", "backup finished"},
+	{"percent-end", "disk usage at 93%"},
+	{"percent-verb", "50% done, %d files, %s left, %v"},
+	{"percent-pad", "%!d(MISSING) %% %5.2f %[1]q %*d"},
+	{"quotes", `say "hi" \ and \\ and \"`},
+	{"newlines", "line1\nline2\r\nline3\rend"},
+	{"separators", "a b c\u0085d"},
+	{"html", "<script>&amp;</script>"},
+	{"nul-ctl", "a\x00b\x01c\x1fd\x7f"},
+	{"sse-words", "data: x\nevent: message\nid: 7\n\n"},
+}
+
+type c03NoteCase struct {
+	Mode string // ss-push ls-push ss-call sl-call
+	Kind string // custom | log | progress
+	Str  int
+}
+
+func c03NoteCases() []c03NoteCase {
+	var out []c03NoteCase
+	for _, m := range []string{"ss-push", "ls-push", "ss-call", "sl-call"} { // (stdio and legacy SSE handlers have no notification sender)
+		for _, k := range []string{"custom", "log", "progress"} {
+			if strings.HasSuffix(m, "-push") && k != "custom" {
+				continue
+			}
+			for i := range c03NoteStrings {
+				out = append(out, c03NoteCase{m, k, i})
+			}
+		}
+	}
+	return out
+}
+
+func c03NoteEval(cs c03NoteCase) CaseResult {
+	str := c03NoteStrings[cs.Str]
+	cr := CaseResult{Desc: fmt.Sprintf("mode=%s notification=%s string=%s", cs.Mode, cs.Kind, str.Name), Nontrivial: true}
+	var viol []explore.Violation
+	obs := &hx.Log{}
+	key := func(k string) string { return fmt.Sprintf("%s:%s:%s:%s", k, cs.Mode, cs.Kind, str.Name) }
+	var frames []string
+	var want string
+	res := vsched.Run(vsched.Config{}, func() {
+		mode := strings.SplitN(cs.Mode, "-", 2)[0]
+		r := NewRig(mode)
+		var emitErr error
+		r.RegisterTool(mcp.NewTool("emit"), func(ctx context.Context, req *mcp.CallToolRequest) (*mcp.CallToolResult, error) {
+			ns, ok := mcp.GetNotificationSender(ctx)
+			if !ok {
+				emitErr = errors.New("no notification sender in the handler's context")
+				return mcp.NewTextResult("done"), nil
+			}
+			switch cs.Kind {
+			case "custom":
+				emitErr = ns.SendCustomNotification("notifications/custom", map[string]interface{}{"s": str.S, "n": 1})
+			case "log":
+				emitErr = ns.SendLogMessage("info", str.S)
+			case "progress":
+				emitErr = ns.SendProgress(0.5, str.S)
+			}
+			return mcp.NewTextResult("done"), nil
+		})
+		r.Start()
+		rp := NewRawPeer(r)
+		if err := rp.Handshake(); err != nil {
+			viol = append(viol, V("setup-handshake-fails", "setting the scenario up with well-behaved peers fails: %v", err))
+			return
+		}
+		vsched.Quiesce()
+		if strings.HasSuffix(cs.Mode, "-push") {
+			want = hx.CanonOf(map[string]interface{}{"s": str.S, "n": 1})
+			var err error
+			if mode == "ls" {
+				err = r.SSE.SendNotification("sse-0001", "notifications/custom", map[string]interface{}{"s": str.S, "n": 1})
+			} else {
+				if e := rp.OpenStream(); e != nil {
+					viol = append(viol, V("harness", "GET: %v", e))
+					return
+				}
+				err = r.Server.SendNotification(rp.SID, "notifications/custom", map[string]interface{}{"s": str.S, "n": 1})
+			}
+			vsched.Quiesce()
+			if err != nil {
+				viol = append(viol, V(key("push-fails"), "SendNotification failed: %v", err))
+			}
+			frames = rp.StreamFrames()
+			return
+		}
+		re := rp.Send(`{"jsonrpc":"2.0","id":7,"method":"tools/call","params":{"name":"emit","_meta":{"progressToken":"tok"}}}`)
+		vsched.Quiesce()
+		if emitErr != nil {
+			viol = append(viol, V(key("emit-fails"), "sending the notification from the handler failed: %v", emitErr))
+		}
+		frames = re.Frames
+		if mode == "io" {
+			frames = rp.StreamFrames()
+		}
+	})
+	if len(viol) == 0 {
+		// the frames that are not the handshake's or the call's answer
+		var notes []string
+		var hf []hx.Frame
+		for _, f := range frames {
+			var m map[string]json.RawMessage
+			if json.Unmarshal([]byte(f), &m) == nil {
+				if _, isResp := m["result"]; isResp {
+					continue
+				}
+				if _, isErr := m["error"]; isErr {
+					continue
+				}
+			}
+			notes = append(notes, f)
+			hf = append(hf, hx.Frame{Raw: f, Kind: "notification"})
+		}
+		if len(notes) != 1 {
+			viol = append(viol, V(key("notification-count"), "%d notification frames were written, want 1: %s", len(notes), truncate(strings.Join(frames, " | "), 300)))
+		}
+		verd, err := hx.ValidateFrames(hf)
+		if err != nil {
+			cr.Broken = err.Error()
+			return cr
+		}
+		for i, v := range verd {
+			if !v.OK {
+				viol = append(viol, V(key("malformed-notification"), "the server wrote an ill-formed notification: %s :: %s", strings.Join(v.Errors, "; "), truncate(notes[i], 200)))
+				continue
+			}
+			var m struct {
+				Method string                 `json:"method"`
+				Params map[string]interface{} `json:"params"`
+			}
+			json.Unmarshal([]byte(notes[i]), &m)
+			switch cs.Kind {
+			case "custom":
+				if got := hx.CanonOf(m.Params); want != "" && got != want {
+					viol = append(viol, V(key("notification-params"), "parameters written %s, handed to the library %s", truncate(got, 200), truncate(want, 200)))
+				} else if want == "" && (m.Params["s"] != str.S) {
+					viol = append(viol, V(key("notification-params"), "parameter s written as %q, handed to the library as %q", m.Params["s"], str.S))
+				}
+			default:
+				if !strings.Contains(hx.CanonOf(m.Params), hx.CanonOf(str.S)) {
+					viol = append(viol, V(key("notification-params"), "the message %q handed to the library does not appear in the notification written: %s", str.S, truncate(notes[i], 240)))
+				}
+			}
+		}
+		obs.Add("%d notes", len(notes))
+	}
+	o := finishOutcome(res, obs, viol, true)
+	cr.ObsKey = cr.Desc + "|" + o.ObsKey
+	cr.Violations = o.Violations
+	if cr.Broken == "" {
+		cr.Broken = o.Broken
+	}
+	return cr
+}
+
+func init() {
+	RegisterEnum(&Enum{Name: "c03/notifications", Doc: "notifications the server writes: pushed to a session (Streamable GET stream, legacy SSE stream) and emitted by a running tool handler (POST-SSE stream, stateful and stateless; custom / log / progress) x 10 parameter strings hostile to frame writers (%, quotes, line breaks, U+2028, control bytes, SSE field names); schema oracle + JSON equality of the parameters",
+		Count: func(string) int { return len(c03NoteCases()) },
+		Eval:  func(tier string, i int) CaseResult { return c03NoteEval(c03NoteCases()[i]) }})
 }
